@@ -21,7 +21,7 @@ def population(rng):
 
 
 def weights_for(rng, n):
-    kind = rng.choice(["int", "float", "mixed", "zeros", "big"])
+    kind = rng.choice(["int", "float", "mixed", "zeros", "big", "subnormal"])
     ws = []
     for _ in range(n):
         if kind == "int":
@@ -32,6 +32,8 @@ def weights_for(rng, n):
             ws.append(rng.choice([rng.randint(0, 5), rng.random()]))
         elif kind == "zeros":
             ws.append(rng.choice([0, 0, 0.0, 1, 2.5]))
+        elif kind == "subnormal":
+            ws.append(rng.choice([5e-324, 1e-323, 2.2250738585072014e-308, 1e-310]))
         else:
             ws.append(rng.choice([10 ** 9, 1e9, 1e-9, 123456789.123456789, 2 ** 53]))
     if sum(ws) <= 0:
